@@ -181,6 +181,28 @@ func checkC06(c C06Case, o *Obs) error {
 			}
 		}
 	}
+	// The input is a *bytes.Buffer whose storage the caller overwrites once decoding is done (a
+	// chunk buffer that is refilled): the records stay what they were.
+	{
+		storage := bytes.Clone(text)
+		got, over, p := collect(func(cb func(Item) bool) { codec.Reader(bytes.NewBuffer(storage), cb) }, limit)
+		for i := range storage {
+			storage[i] = '#'
+		}
+		if p == nil && !over {
+			for i, it := range got {
+				if it.Err == nil && it.canon != nil && it.canon() != it.Rec {
+					return fmt.Errorf("%s: record item %d read from a *bytes.Buffer changed from %s to %s when the caller overwrote the buffer's storage afterwards (input %s)", c.Format, i, it, Item{Rec: it.canon()}, gen.Abbrev(text))
+				}
+			}
+		}
+		if p != nil || over || !sameItems(got, base) {
+			return fmt.Errorf("%s: reading from a *bytes.Buffer yields %s (panic %v), from a bytes.Reader %s (input %s)", c.Format, describeItems(got), p, describeItems(base), gen.Abbrev(text))
+		}
+	}
+	// An earlier stream of this format that failed half-way (its reader is done with) leaves
+	// nothing behind for the readers that follow.
+	collect(func(cb func(Item) bool) { codec.Reader(&fault.FailAfter{Data: text, K: len(text) / 2}, cb) }, limit)
 	// Readers in use at the same time (paired files read in lockstep): a reader over these
 	// bytes, one over other data of the same format (a fixed small input repeated until it is
 	// longer than this one) that starts one item later, and a third over these bytes again,
@@ -310,6 +332,14 @@ func checkC06(c C06Case, o *Obs) error {
 				return fmt.Errorf("%s.File(a directory named %q) yields %s, want an error", c.Format, filepath.Base(dir), describeItems(got))
 			}
 		}
+		// a missing path is missing even if the same name with ".gz" appended exists
+		{
+			sibling := writeTemp(text, "."+c.Format+".gz")
+			got, over, p := collect(func(cb func(Item) bool) { codec.File(strings.TrimSuffix(sibling, ".gz"), cb) }, 8)
+			if p != nil || over || len(got) == 0 || got[0].Err == nil {
+				return fmt.Errorf("%s.File(a path that does not exist, while path+\".gz\" does) yields %s (panic %v), want an error", c.Format, describeItems(got), p)
+			}
+		}
 		missing := filepath.Join(scratchDir(), "does-not-exist", "x."+c.Format)
 		got, over, p := collect(func(cb func(Item) bool) { codec.File(missing, cb) }, 8)
 		if p != nil {
@@ -431,6 +461,8 @@ func exhaustiveC06(thorough bool, emit func(C06Case) bool) {
 					fmt.Fprintf(&raw, "%s%d%s\n", l[:2], i, l[2:])
 				case strings.HasPrefix(l, "("):
 					fmt.Fprintf(&raw, "(n%d,%s)x%d;\n", i, strings.TrimSuffix(l, ";"), i)
+				case strings.HasPrefix(l, "@CO"):
+					fmt.Fprintf(&raw, "%s%d\n", l, i)
 				default:
 					raw.WriteString(l + "\n")
 				}
